@@ -989,7 +989,7 @@ fn full_alphabet() -> Vec<Op> {
     ]
 }
 fn reduced_alphabet() -> Vec<Op> {
-    vec![Op::Ins(1), Op::Ins(2), Op::Ins2(2, 3), Op::Upd(1), Op::UpdAll, Op::Del(1), Op::Trunc, Op::CIdx, Op::InsA, Op::TxnIns(3)]
+    vec![Op::Ins(1), Op::TxnUpdAll, Op::Ins2(2, 3), Op::Upd(1), Op::UpdAll, Op::Del(1), Op::Trunc, Op::CIdx, Op::InsA, Op::TxnIns(3)]
 }
 
 const CKPTS: [Maint; 3] = [Maint::Ckpt, Maint::PragmaCkpt, Maint::AutoCkpt];
@@ -1007,7 +1007,7 @@ fn passes(ctx: &Ctx) -> Vec<Pass> {
     v.push(Pass { name: "comp-reopen", vars: ALL_VARS.to_vec(), alphabet: full_alphabet(), max_ops: if q { 2 } else { 3 }, maints: REOPENS.to_vec(), wals: both.clone(), comp: true, pairs: false, pos0_upto: 1 });
     // deepest level over a reduced alphabet
     let deep_vars = if q { vec![Var::PkIdx, Var::Auto] } else { vec![Var::PkIdx, Var::Auto, Var::Big] };
-    let deep_alpha = if q { vec![Op::Ins(1), Op::Ins2(2, 3), Op::Upd(1), Op::UpdAll, Op::Del(1), Op::Trunc, Op::InsA, Op::TxnIns(3)] } else { reduced_alphabet() };
+    let deep_alpha = if q { vec![Op::Ins(1), Op::TxnUpdAll, Op::Upd(1), Op::UpdAll, Op::Del(1), Op::Trunc, Op::InsA, Op::TxnIns(3)] } else { reduced_alphabet() };
     // (with WAL off the explicit checkpoints are no-ops on a database without WAL object: WAL on only)
     v.push(Pass { name: "deep-checkpoint", vars: deep_vars.clone(), alphabet: deep_alpha.clone(), max_ops: if q { 3 } else { 4 }, maints: CKPTS.to_vec(), wals: vec![true], comp: false, pairs: false, pos0_upto: 0 });
     v.push(Pass { name: "deep-comp-reopen", vars: deep_vars, alphabet: deep_alpha, max_ops: if q { 3 } else { 4 }, maints: REOPENS.to_vec(), wals: both.clone(), comp: true, pairs: false, pos0_upto: 0 });
